@@ -291,7 +291,10 @@ class MutableRaw(object):
         self.num_extra = int.from_bytes(raw[self.extra_offset:self.extra_offset + 4], "big")
         recs = [raw[100 + 92 * i: 100 + 92 * (i + 1)] for i in range(4)]
         base = self.extra_offset + 4
-        recs += [raw[base + 92 * i: base + 92 * (i + 1)] for i in range(self.num_extra)]
+        # a corrupt count must not make the parser allocate gigabytes
+        fit = max(0, (len(raw) - base) // 92)
+        self.count_plausible = (self.num_extra <= fit and len(raw) >= self.extra_offset + 4)
+        recs += [raw[base + 92 * i: base + 92 * (i + 1)] for i in range(min(self.num_extra, fit))]
         self.slots = []
         for rec in recs:
             if len(rec) != 92:
@@ -314,7 +317,8 @@ class MutableRaw(object):
 
     def wellformed(self):
         """layout facts that must hold for the parse to mean anything."""
-        return (self.extra_offset >= 468 + self.data_length
+        return (self.count_plausible
+                and self.extra_offset >= 468 + self.data_length
                 and len(self.raw) >= self.end_of_leases
                 and all(s is not None for s in self.slots))
 
@@ -325,6 +329,19 @@ def parse_mutable(path):
 
 
 # ---------------------------------------------------------------- helpers
+
+def apply_writes(data, datav, new_length):
+    """Reference semantics of one mutable share's write vector + new_length
+    (growable byte array: zero-extend, overwrite, truncate if smaller)."""
+    d = bytearray(data)
+    for off, w in datav:
+        if off > len(d):
+            d.extend(bytes(off - len(d)))
+        d[off:off + len(w)] = w
+    if new_length is not None and new_length < len(d):
+        del d[new_length:]
+    return d
+
 
 def rand_bytes(rng, n):
     return bytes(rng.getrandbits(8) for _ in range(n))
